@@ -156,8 +156,8 @@ Example c12_nonvacuous :
   get_cycles g None [0; 0; 0; 0] = Ok [[0; 2; 1]] /\
   get_cycles [[1]; [2]; [0; 1]] (Some true) [0; 0; 0] = Ok [[0; 1; 2]; [1; 2]] /\
   is_acyclic g None [0; 0; 0; 0] = Ok false /\
-  In [[1]; [2]; [0; 1]] small_digraphs /\
+  length small_digraphs = 4627 /\ length small_undirected = 1 + 2 + 8 + 64 + 1024 /\
   bc_run (Some true) true [[1]; [2]; [0; 1]] [0] = Ok [[1]; [2]; []] /\
   get_largest_connected_component {| p_ncol := 3; p_rows := [[1]; [0]; []] |} false [0; 0; 1] =
     Ok ({| p_ncol := 2; p_rows := [[1]; [0]] |}, [0; 1]).
-Proof. vm_compute. repeat split; try reflexivity. tauto. Qed.
+Proof. cbv zeta. repeat split; vm_compute; reflexivity. Qed.
